@@ -66,8 +66,12 @@ def gen_program(rng, depth, children_pool):
                 roll = rng.random()
                 if roll < 0.25:
                     program['children'].append(gen_program(rng, depth + 1, children_pool))
-                    kind = rng.choice(['execute', 'launch', 'await_child'] if step.get('async') else ['execute', 'launch'])
+                    kind = rng.choice(['execute', 'launch', 'await_child', 'start_child'] if step.get('async') else ['execute', 'launch'])
                     group.append({'e': kind, 'child': len(program['children']) - 1})
+                    if kind == 'start_child':
+                        group[-1]['n'] = rng.randint(1, 2)
+                elif roll < 0.32 and step.get('async') and depth == 0:
+                    group.append({'e': 'adopt'})
     return program
 
 
@@ -75,7 +79,11 @@ def random_case(rng, tier):
     n_procs = rng.randint(2, 4 if tier == 'thorough' else 3)
     procs = [gen_program(rng, 0, None) for _ in range(n_procs)]
     starts = [rng.choice([0, 0, 0.5, 1]) for _ in range(n_procs)]
-    return {'procs': procs, 'starts': starts}
+    case = {'procs': procs, 'starts': starts}
+    if any(eff['e'] == 'adopt' for program in procs for step in program['steps'] for group in step['effects'] for eff in group):
+        # processes that take their first step(s) at top level and are finished from inside another process's step
+        case['adoptable'] = [[gen_program(rng, 2, None), rng.randint(1, 2)] for _ in range(rng.randint(1, 2))]
+    return case
 
 
 def shrink(case):
@@ -160,10 +168,41 @@ def run(case):
             if index % 2 == 0:
                 proc.call_soon(plain)
             proc.call_soon(coro)
+        adoptables = []
+        for index, (program, n_steps) in enumerate(case.get('adoptable') or []):
+            cls = programs.build_process_class(program, world, plumpy, hooks=True, record_calls=False)
+            target = cls(loop=loop)
+            target._sim_label = f'a{index}'
+            adoptables.append(target)
+
+            async def first_steps(target=target, n_steps=n_steps):
+                for _ in range(n_steps):
+                    if not target.has_terminated():
+                        await target.step()
+                world.adoptable.append(target)
+
+            loop.create_task(first_steps())
         interrupted = set()
+        finishing = set()
         for _ in range(200):
             loop.run_until_quiescent()
-            live = [p for p in procs + world.children if not p.has_terminated()]
+            for child in list(world.handover):
+                # started inside a parent's step, finished here at top level
+                world.handover.remove(child)
+                result.counters['probe:started_in_step_finished_at_top_level'] += 1
+                loop.create_task(child.step_until_terminated())
+            if world.handover == [] and loop.runnable():
+                continue
+            live = [p for p in procs + world.children + adoptables if not p.has_terminated() and p not in world.adoptable]
+            if all(p.has_terminated() for p in procs):
+                for target in list(world.adoptable):
+                    # nobody adopted it: finished at top level
+                    if id(target) not in finishing:
+                        finishing.add(id(target))
+                        world.adoptable.remove(target)
+                        loop.create_task(target.step_until_terminated())
+                if loop.runnable():
+                    continue
             if not live:
                 break
             progressed = False
@@ -188,7 +227,7 @@ def run(case):
         result.events = events
         result.sim_time = loop.time()
         result.ticks = loop.tick
-        for proc in procs + world.children:
+        for proc in procs + world.children + adoptables:
             if not proc.has_terminated():
                 raise RuntimeError(f'process {programs.label(proc)} did not terminate: {proc.state}')
 
